@@ -15,7 +15,12 @@
 #ifndef B1
 #define B1 1
 #endif
+/* DBITS (optional per-query constant): operand data restricted to DBITS-bit values - positions and index ranges stay fully visible, the multiplier circuits shrink (stated in the bounds of the queries that use it) */
+#ifdef DBITS
+static void in_data8(u8* d, int n){ for (int i = 0; i < n; i++) d[i] = (u8)in_u64(0, (1u << DBITS) - 1); }
+#else
 static void in_data8(u8* d, int n){ for (int i = 0; i < n; i++) d[i] = in_any8(); }
+#endif
 static u64 numel(const u64* s, u64 n){ u64 p = 1; for (u64 i = 0; i < 4; i++) if (i < n) p *= s[i]; return p; }
 static int np_broadcast(const u64* a, u64 na, const u64* b, u64 nb, u64* e, u64* ne){
   u64 nr = na > nb ? na : nb; int ok = 1;
